@@ -21,7 +21,7 @@ META = dict(
     property="C53",
     level="fault_enumeration",
     technique="random write/rotate/reopen histories on the real LogFile with an exact directory-transition oracle after every operation, plus directory snapshots before every remove/rename/open inside rotate() (crash states) checked for the suffix property and for a clean continuation",
-    level_text="Histories of bytes and (multi-byte) text writes, explicit rotate(), flush, reopen() and close+new instance, rotateLength 1..200 or None, maxRotatedFiles None or 1..4, optionally pre-existing rotated files, several file names. After every operation the whole directory is compared with the permitted transitions (exact content of every file). Every crash point inside every rotation (before each os.remove/os.rename and before the new file is opened) is enumerated: the files present, oldest first, must be a byte suffix of everything written (everything, if there is no retention count), and a new LogFile opened on that state must rotate once more with the same guarantee. Histories are sampled (Hypothesis) plus a complete enumeration of short histories over a small alphabet.",
+    level_text="Histories of bytes and (multi-byte) text writes, explicit rotate(), flush, reopen() and close+new instance, rotateLength 1..200 or None, maxRotatedFiles None, 1..4 or 9..14, optionally up to 13 pre-existing rotated files (so that suffixes reach two digits), several file names. After every operation the whole directory is compared with the permitted transitions (exact content of every file). Every crash point inside every rotation (before each os.remove/os.rename and before the new file is opened) is enumerated: the files present, oldest first, must be a byte suffix of everything written (everything, if there is no retention count), and a new LogFile opened on that state must rotate once more with the same guarantee. Histories are sampled (Hypothesis) plus a complete enumeration of short histories over a small alphabet.",
     level_note="Promptness of rotation is not asserted (the statement does not; LogFile counts characters, not bytes, so rotation after multi-byte text may come late, which the statement allows). Runs as a user for whom os.access() succeeds. Process-crash model: completed system calls persist in order. Partial writes of a single write() are not enumerated (the file is unbuffered; a prefix of the last write is trivially a suffix-preserving state).",
     design_ref="§5 C53",
     rule="case = (name, rotateLength, maxRotatedFiles, pre-existing rotated files, operation list). One evaluation = one history with all its crash states. non-trivial = a rotation that had at least one older rotated file to move (or drop); distinct by (retention count, contents of the files before the rotation).",
@@ -252,6 +252,8 @@ def run_case(ctx, case):
                 if rotated:
                     ctx.nontrivial((keep, sorted(rotated.items()), current))
                     ctx.count("rotation moving older files")
+                    if max(rotated) >= 9:
+                        ctx.count("rotation with two-digit suffixes (>= 9 older files)")
                     if keep is not None and any(i >= keep for i in rotated):
                         ctx.count("rotation dropping a file beyond the retention count")
                 _check_crash_states(ctx, case, rec.states, written, keep, name, work, rot_len, holder, what)
@@ -278,8 +280,9 @@ def _strategy(names):
         dict,
         name=st.sampled_from(names),
         rotateLength=st.one_of(st.integers(1, 12), st.integers(1, 200), st.none()),
-        maxRotatedFiles=st.one_of(st.none(), st.integers(1, 4)),
-        pre=st.one_of(st.just([]), st.lists(st.binary(max_size=8), max_size=5)),
+        maxRotatedFiles=st.one_of(st.none(), st.integers(1, 4), st.integers(9, 14)),
+        pre=st.one_of(st.just([]), st.lists(st.binary(max_size=8), max_size=5),
+                      st.lists(st.binary(min_size=1, max_size=4), min_size=8, max_size=13)),
         pre_current=st.one_of(st.none(), st.binary(max_size=20)),
         ops=st.lists(op, min_size=1, max_size=25),
     )
@@ -299,6 +302,18 @@ def _small(maxlen):
             yield from rec([])
 
 
+def _many_files():
+    """Directories that already hold 8..12 rotated files, then 1..3 rotations:
+    suffixes cross from one digit to two (and the retention count cuts there)."""
+    for k in range(8, 13):
+        pre = [b"f%d;" % i for i in range(1, k + 1)]
+        for keep in (None, 9, 10, 11, 12):
+            for ops in ([("rotate",)], [("w", b"xy"), ("w", b"z"), ("w", b"w")],
+                        [("rotate",), ("new",), ("w", b"abc"), ("rotate",), ("t", "é"), ("w", b"q")]):
+                yield dict(name="log", rotateLength=2, maxRotatedFiles=keep, pre=pre, pre_current=b"cur",
+                           ops=list(ops))
+
+
 def _enum_shard(sub, arg):
     i, n, maxlen = arg
     enumerate_run(sub, (c for j, c in enumerate(_small(maxlen)) if j % n == i), run_case)
@@ -316,6 +331,8 @@ def run(ctx):
     n = ctx.pick(2, 16)
     ctx.shards(_enum_shard, [(i, n, maxlen) for i in range(n)])
     ctx.extra["complete_histories_up_to_length"] = maxlen
+    if not ctx.has_violation():
+        enumerate_run(ctx, _many_files(), run_case)
     ctx.exhaustive = False
     if ctx.has_violation():
         return
